@@ -56,6 +56,9 @@ class CoopLock:
         me = ex.by_ident[threading.get_ident()]
         ex.lock_point(me, self)
         while self.owner is not None and not (self.reentrant and self.owner == me):
+            if not blocking or timeout >= 0:
+                # try-lock (a timed wait is modelled as a try-lock whose timeout expired: time is not part of the model)
+                return False
             ex.wait_for(me, self)
         self.owner = me
         self.depth += 1
@@ -73,6 +76,9 @@ class CoopLock:
 
     def __exit__(self, *a):
         self.release()
+
+    def locked(self):
+        return self.owner is not None
 
     def held_by_other(self, tid):
         return self.owner is not None and self.owner != tid and self.owner != "outside"
